@@ -296,7 +296,9 @@ def gen_chain(o):
                      "FromColorMut::from_color_mut", "FromColorUnclampedMut::from_color_unclamped_mut", "Drop for both guard types"],
                     f"chain depth {depth}, " + f.bound + ", all values", unwind=UNWIND,
                     # measured: unclamped chains keep the full 8-bit range through mul/div (23-151 s for len >= 2)
-                    thorough=(fl == "unclamped" and (f.single or f.n >= 2)) or (f.n == 3 and depth >= 3))
+                    # quick tier: len 0 and 1 (all depths), the single-value form and len 2 at depth 4; the rest measured 10-151 s
+                    thorough=(fl == "unclamped" and (f.single or f.n >= 2 or (f.n == 1 and depth == 3)))
+                    or f.n == 3 or (f.n == 2 and depth < 4))
 
     # nested guards (each borrowed from the previous through DerefMut): restores step by step in reverse order
     nseq = ["B", "C", "A", "B"]
